@@ -160,14 +160,18 @@ class Machine(object):
     """w x h chips (minus `dead`); SCP interpreter in `handle`."""
 
     def __init__(self, w, h, dead=(), buffer_size=256, root=(0, 0),
-                 version=(3, 0, 1), legacy_version=False, labels=""):
+                 version=(3, 0, 1), legacy_version=False, labels="",
+                 only=None):
         self.w, self.h = w, h
         self.buffer_size = buffer_size
         self.root = root
         self.version, self.legacy, self.labels = version, legacy_version, \
             labels
-        self.chips = {(x, y): Chip(x, y) for x in range(w) for y in range(h)
-                      if (x, y) not in set(dead)}
+        if only is not None:
+            self.chips = {tuple(xy): Chip(xy[0], xy[1]) for xy in only}
+        else:
+            self.chips = {(x, y): Chip(x, y) for x in range(w)
+                          for y in range(h) if (x, y) not in set(dead)}
         self.eth_of_host = {}       # host name -> Ethernet chip
         self.cmds = []              # (cmd, (x, y, p), (a1, a2, a3), payload)
         self.arrivals = []          # (host, (dest_x, dest_y, p), cmd)
